@@ -2,6 +2,8 @@
 
 package bluemonday
 
+import "net/url"
+
 func HarnessSmoke_dataAttr() {
 	k := nondetString("key")
 	if isDataAttribute(k) {
@@ -20,4 +22,31 @@ func HarnessSmoke_ugc() {
 func HarnessSmoke_policy() {
 	p := symLoopPolicy()
 	verifNoteBool("x", p.addSpaces)
+}
+
+// ---- C14 unit harnesses -------------------------------------------------------------
+
+func HarnessC14_removeUnicode() {
+	v := nondetString("v")
+	out := removeUnicode(v)
+	verifNote("out", out)
+	verifReach("C14-removeUnicode-returns")
+}
+
+func HarnessC14_dataURI() {
+	p := NewPolicy()
+	p.AllowDataURIImages()
+	fs := p.allowURLSchemes["data"]
+	verifAssert(len(fs) == 1, "C14-data-scheme-has-one-check")
+	u := &url.URL{Scheme: "data", Opaque: nondetString("opaque"), RawQuery: nondetString("query"), Fragment: nondetString("fragment")}
+	ok := fs[0](u)
+	verifNoteBool("ok", ok)
+	verifReach("C14-dataURI-returns")
+}
+
+func HarnessC14_isDataAttribute() {
+	k := nondetString("key")
+	ok := isDataAttribute(k)
+	verifNoteBool("ok", ok)
+	verifReach("C14-isDataAttribute-returns")
 }
